@@ -45,7 +45,7 @@ func (rl *Shell) standardCommands() commands {
 		"next-screen-line":     rl.downLine,
 		"clear-screen":         rl.clearScreen,
 		"clear-display":        rl.clearDisplay,
-		"redraw-current-line":  rl.Display.Refresh,
+		"redraw-current-line":  rl.redrawCurrentLine,
 
 		// Changing text
 		"end-of-file":                  rl.endOfFile,
@@ -443,6 +443,13 @@ func (rl *Shell) selfInsert() {
 	rl.cursor.InsertAt(quoted...)
 	rl.cursor.Move(-1 * len(quoted))
 	rl.cursor.Move(length)
+}
+
+// Refresh the current line. The display engine does not exist yet
+// when the commands are registered, so it must be resolved at call time.
+func (rl *Shell) redrawCurrentLine() {
+	rl.History.SkipSave()
+	rl.Display.Refresh()
 }
 
 func (rl *Shell) bracketedPasteBegin() {
